@@ -4,7 +4,6 @@ CONSTANTS
   NUp = 2
   NDown = 2
   MaxFaults = 5
-  AsIs_D15 = FALSE
 SPECIFICATION GenSpec
-INVARIANTS TypeOK PrefixDelivered OnlyOwnSegments OneAcceptPerSession OneCurrent DeadOnlyByD15
+INVARIANTS TypeOK PrefixDelivered OnlyOwnSegments OneAcceptPerSession OneCurrent NeverDead
 CHECK_DEADLOCK FALSE
